@@ -168,12 +168,13 @@ def rule_limit_handover(ctx: Ctx, rule: str) -> None:
                    witness="fnmatch('x', '{1..2000}', flags=BRACE) must raise PatternLimitException, not bracex's exception")
         raises = [r for r in q.stmts(lambda x: isinstance(x, ast.Raise)) if r.exc is not None and
                   'PatternLimitException' in norm_src(r.exc) and not q.in_handler(r, {'ExpansionLimitException'})]
-        good = [r for r in raises if (f'0 < {lim} < total', 'T') in q.guards(r)]
-        ctx.ob(rule, f'{fi.fq}/count-guard', bool(good), repo.loc(mod, fi.node), f'raise PatternLimitException under 0 < {lim} < total',
+        counter = 'self.total' if any(norm_src(s) == 'self.total += 1' for s in q.stmts(lambda x: isinstance(x, ast.AugAssign))) else 'total'
+        good = [r for r in raises if (f'0 < {lim} < {counter}', 'T') in q.guards(r)]
+        ctx.ob(rule, f'{fi.fq}/count-guard', bool(good), repo.loc(mod, fi.node), f'raise PatternLimitException under 0 < {lim} < {counter}',
                f'{len(good)} of {len(raises)} raise sites', witness="fnmatch('x', ['a','b','c'], limit=2) must raise; limit=3 must not; limit=0 never")
-        incs = [s for s in q.stmts(lambda x: isinstance(x, ast.AugAssign)) if norm_src(s) == 'total += 1']
+        incs = [s for s in q.stmts(lambda x: isinstance(x, ast.AugAssign)) if norm_src(s) == f'{counter} += 1']
         okinc = bool(incs) and bool(good) and all(q.cfg.dominates(q.node_of(i2), q.node_of(g)) for i2 in incs[:1] for g in good)
-        ctx.ob(rule, f'{fi.fq}/count-before-guard', okinc, repo.loc(mod, fi.node), '`total += 1` dominates the guard', str(okinc))
+        ctx.ob(rule, f'{fi.fq}/count-before-guard', okinc, repo.loc(mod, fi.node), f'`{counter} += 1` dominates the guard', str(okinc))
     ctx.floor(rule, 'expansion loops', n, 3)
 
 
@@ -208,6 +209,20 @@ def rule_budget_clamp(ctx: Ctx, rule: str) -> None:
             ctx.ob(rule, f'{fi.fq}/{norm_src(s)}', ok, repo.loc(mod, s), f'followed by `if {tgt} < 1: {tgt} = 1` (or a raise)', desc,
                    witness="fnmatch('a', '{1..100}', flags=BRACE, limit=3, exclude=['x','y','z']) returns instead of raising: "
                            'the budget reached 0 = unlimited')
+        # expression form: x = <budget> - y must sit inside max(..., 1)
+        from .common import enclosing_map
+        par = enclosing_map(fi.node)
+        for b in q.stmts(lambda x: isinstance(x, ast.BinOp) and isinstance(x.op, ast.Sub)):
+            if norm_src(b.left) not in ('limit', 'current_limit', 'self.limit', 'self.current_limit'):
+                continue
+            p = par.get(id(b))
+            if isinstance(p, ast.Compare) or (isinstance(p, ast.BinOp) and not isinstance(p.op, ast.Sub)):
+                continue
+            n += 1
+            okm = isinstance(p, ast.Call) and norm_src(p.func) == 'max' and len(p.args) == 2 and \
+                any(isinstance(a, ast.Constant) and isinstance(a.value, int) and a.value >= 1 for a in p.args)
+            ctx.ob(rule, f'{fi.fq}/{norm_src(b)}', okm, repo.loc(mod, b), 'clamped: max(<budget> - n, 1)', norm_src(p)[:70] if p is not None else '?',
+                   witness="fnmatch('a', '{1..100}', flags=BRACE, limit=3, exclude=['x','y','z']) must raise: a budget of 0 would mean unlimited")
     ctx.floor(rule, 'budget subtractions', n, 5)
 
 
@@ -218,10 +233,14 @@ def rule_budget_continuity(ctx: Ctx, rule: str) -> None:
     for fn in ('translate', 'compile_pattern'):
         fi = repo.func(WP, fn)
         subs = [s for s in walk_no_nested(fi.node) if isinstance(s, ast.AugAssign) and norm_src(s) == 'limit -= len(negative)']
+        starts = [s for s in walk_no_nested(fi.node) if isinstance(s, ast.Assign) and norm_src(s) == 'total = len(negative)']
+        zero = [s for s in walk_no_nested(fi.node) if isinstance(s, ast.Assign) and norm_src(s) == 'total = 0']
         q = fq(fi)
-        ok = bool(subs) and all(q.guarded(s, 'exclude is not None', 'T') for s in subs)
-        ctx.ob(rule, f'{WP}:{fn}/exclusions-charged', ok, repo.loc(WP, fi.node), 'limit -= len(negative) after compiling `exclude`',
-               str(ok), witness="fnmatch('a', ['a','b'], limit=3, exclude=['x','y']) must raise (4 > 3)")
+        ok = (bool(subs) and all(q.guarded(s, 'exclude is not None', 'T') for s in subs)) or (len(starts) == 1 and not zero)
+        ctx.ob(rule, f'{WP}:{fn}/exclusions-charged', ok, repo.loc(WP, fi.node),
+               'exclusion patterns are charged: the running total starts at len(negative) (or the limit is reduced by it)',
+               'total = len(negative)' if starts and not zero else ('limit -= len(negative)' if subs else 'exclusions are not counted'),
+               witness="fnmatch('a', ['a','b'], limit=3, exclude=['x','y']) must raise (4 > 3)")
     gi = repo.func('glob', 'Glob.__init__')
     passes = [c for c in walk_no_nested(gi.node) if isinstance(c, ast.Call) and norm_src(c.func) == 'self._parse_patterns']
     ip = repo.func('glob', 'Glob._iter_patterns')
@@ -229,7 +248,14 @@ def rule_budget_continuity(ctx: Ctx, rule: str) -> None:
     reduces = [s for m in repo.cls('glob', 'Glob').methods.values() for s in walk_no_nested(m.node)
                if isinstance(s, ast.AugAssign) and norm_src(s.target) == 'self.limit']
     ok = not (len(passes) > 1 and local_total and not reduces)
+    attr_writers: dict[str, list[str]] = {}
+    for m2 in repo.cls('glob', 'Glob').methods.values():
+        for s2 in walk_no_nested(m2.node):
+            if isinstance(s2, (ast.Assign, ast.AugAssign)) and norm_src(s2.targets[0] if isinstance(s2, ast.Assign) else s2.target) == 'self.total':
+                attr_writers.setdefault(m2.name, []).append(norm_src(s2))
+    if not local_total:
+        ok = attr_writers == {'__init__': ['self.total = 0'], '_iter_patterns': ['self.total += 1']}
     ctx.ob(rule, 'glob:Glob._iter_patterns/total-restarts-per-pass', ok, repo.loc('glob', local_total[0] if local_total else ip.node),
            'one running total over both passes (or self.limit reduced between them)',
-           f'{len(passes)} passes, `total = 0` local to each, self.limit never reduced' if not ok else 'continuous',
+           (f'{len(passes)} passes, `total = 0` local to each, self.limit never reduced' if local_total else f'self.total writers: {attr_writers}') if not ok else 'continuous',
            note='F3', witness="glob(['a','b','c'], limit=3, exclude=['x','y','z']) does not raise although 6 > 3")
